@@ -122,7 +122,8 @@ void SmodelsInput::matchSum(RuleBuilder& rule, bool weights) {
 	uint32_t len = matchPos();
 	uint32_t neg = matchPos();
 	if (!weights) { std::swap(len, bnd); std::swap(bnd, neg); }
-	rule.startSum(bnd);
+	require(bnd <= static_cast<uint32_t>(INT_MAX), "bound out of range");
+	rule.startSum(static_cast<Weight_t>(bnd));
 	for (uint32_t i = 0; i != len; ++i) {
 		Lit_t p = lit(matchAtom());
 		if (neg) { p *= -1; --neg; }
@@ -130,7 +131,7 @@ void SmodelsInput::matchSum(RuleBuilder& rule, bool weights) {
 	}
 	if (weights) {
 		for (WeightLit_t* x = rule.wlits_begin(), *end = x + len; x != end; ++x) {
-			x->weight = (Weight_t)matchPos("non-negative weight expected");
+			x->weight = (Weight_t)matchPos(static_cast<unsigned>(INT_MAX), "non-negative weight expected");
 		}
 	}
 }
